@@ -339,6 +339,31 @@ func runC11(sh *core.Shard, a props.Args) {
 				s.Apply(Action{Kind: "crash", Node: x}) // the process exits after leaving
 				s.Stats["graceful_leaves"]++
 			}
+			if variant == "leave-closure" && !s.Failed() {
+				// "the rest follow through gossip": after N+1 loss-free sweeps among
+				// the survivors, every survivor that knows X knows that it left
+				var surv []int
+				for _, m := range s.Nodes {
+					if m.Started && m.Alive && m.Idx != x && !m.Left {
+						surv = append(surv, m.Idx)
+					}
+				}
+				for k := 0; k < len(surv)+1 && !s.Failed(); k++ {
+					for _, i := range surv {
+						for _, j := range surv {
+							if i != j && s.Knows(i, j) {
+								s.Exchange(i, j)
+							}
+						}
+					}
+				}
+				for _, i := range surv {
+					if meta, ok := s.Meta(i, x); ok && !meta.Left && !s.Failed() {
+						s.Fail("leave-not-propagated", "n%d left gracefully and at least one survivor knows it, but after %d loss-free gossip sweeps among the survivors n%d still holds it as a member that has not left (unreachable=%v)", x, len(surv)+1, i, meta.Unreachable)
+					}
+				}
+				s.Stats["leave_propagation_checks"]++
+			}
 			if !s.Failed() {
 				closure(s, r, x, map[string]string{"crash-closure": "crashed", "leave-closure": "left"}[variant])
 			}
@@ -364,7 +389,7 @@ func init() {
 			"failure detector replaced by a logical-clock implementation of the same interface contract (C12 checks the real one)",
 			"expiry sweeps driven through RemoveExpiredAt with times derived from the recorded expiry values, not the wall clock",
 		},
-		RequireCounters: []string{"expirations", "unreachable_marks", "recoveries", "graceful_leaves", "closure_forgotten", "rediscoveries"},
+		RequireCounters: []string{"expirations", "unreachable_marks", "recoveries", "graceful_leaves", "closure_forgotten", "rediscoveries", "leave_propagation_checks"},
 		Timeout:         simTimeout(10*time.Minute, 90*time.Minute),
 		Run:             runC11,
 		Replay:          replayWith(c11Monitors),
